@@ -6,6 +6,7 @@ from vf.runner import run_contracts
 from . import e2e
 
 LEVEL = "proof"
+KINDS = ("outcome", "asm")  # the stack-hygiene clause belongs to C03 / C05
 
 FEATURES = {"subs": True, "recursion": True, "loops": True, "bytes": False, "wide": False, "cond": False, "comments": False}
 
@@ -37,8 +38,9 @@ def bounded(report, tier, seed):
         if r["key"] and r["key"] not in keys:
             keys.add(r["key"])
             nontrivial += 1 if r["nontrivial"] else 0
-        if r["mismatches"]:
-            fails.append({"input": {"spec": s}, "mismatches": r["mismatches"][:3], "program": r.get("program"),
+        mm = [m for m in r["mismatches"] if m["kind"] in KINDS]
+        if mm:
+            fails.append({"input": {"spec": s}, "mismatches": mm[:3], "program": r.get("program"),
                           "teal": r["teals"]})
     report.bounded.append(Bounded(
         function="pyteal.compileTeal on generated programs with subroutines / recursion, executed on the spec AVM",
